@@ -5,6 +5,15 @@ import json, os, subprocess, sys
 from concurrent.futures import ThreadPoolExecutor
 V = "/verif"
 seeds = sorted(os.listdir(os.path.join(V, "seeded")))
+# RESEED_CHECKS=C13,C14 restricts the run to the seeds whose recorded checks include one of these
+only = set(x for x in os.environ.get("RESEED_CHECKS", "").split(",") if x)
+if only:
+    def _checks(s):
+        try:
+            return set(json.load(open(os.path.join(V, "seeded", s, "meta.json"))).get("checks_run", {}))
+        except Exception:
+            return set()
+    seeds = [s for s in seeds if _checks(s) & only]
 groups = {}
 for s in seeds:
     groups.setdefault(s.split("_")[0], []).append(s)
